@@ -62,7 +62,7 @@ Owned(ps) == Prop = "ALL" \/ Prop \in ps
 \* cl: sequence of <<name, owners, holds>>; record the first clause that is owned by Prop and false
 \* C19: a trace with Cfg.ref > 0 must equal its reference trace event for event (checked at every event, before the event's own clauses)
 RefClause == IF Cfg.ref = 0 THEN TRUE
-             ELSE /\ l <= Len(Traces[Cfg.ref].ev) /\ Ev[l] = Traces[Cfg.ref].ev[l]
+             ELSE /\ l <= Len(Traces[Cfg.ref].ev) /\ Ev[l].dg = Traces[Cfg.ref].ev[l].dg   \* dg: digest of the raw (unranked) event
                   /\ (l = Len(Ev) => Len(Traces[Cfg.ref].ev) = Len(Ev))
 Chk(cl0) == LET cl == << <<"identical_to_reference_run", {"C19"}, RefClause>> >> \o cl0
                 f == {i \in 1..Len(cl) : Owned(cl[i][2]) /\ ~cl[i][3]}
